@@ -559,19 +559,27 @@ static void setup_world(void)
   __CPROVER_assume(g_ncalls <= 1 && FIN(g_lat));
 }
 
-#ifdef H_interzone
+#if defined(H_interzone_up) || defined(H_interzone_down)
+#ifndef IZ_PN
+#define IZ_PN 2 /* zones on the path between the gateway's zone and the netpoint's zone (quick: 1, thorough: 2) */
+#endif
+#ifdef H_interzone_up
+#define IZ_DIR 0
+#else
+#define IZ_DIR 1
+#endif
 void harness(void)
 {
   setup_world();
   setup_links(1);
   g_sp.d = g_spb, g_sp.h = 0, g_sp.cap = 2 * PCAP + 2;
   size_t a = nondet_size();
-  __CPROVER_assume(a <= 2);
+  __CPROVER_assume(a <= IZ_PN);
   g_sp.n = a;
   for (int k = 0; k < 2 * PCAP + 2; k++)
     g_spb[k] = pick_zone();
   __CPROVER_assume(gk < 3 * SEGCAP);
-  NetZoneImpl__get_interzone_route(pick_np(), pick_np(), nondet_bool(), &g_links, &g_lat, &g_sp);
+  NetZoneImpl__get_interzone_route(pick_np(), pick_np(), IZ_DIR, &g_links, &g_lat, &g_sp);
   VF_CANARY_POINT;
 }
 #endif
